@@ -4,6 +4,7 @@
 -/
 import Gmars.Gen.Facts
 import Gmars.Proofs.Interleave
+import Gmars.Proofs.MapOrder
 import Gmars.Model.Sim
 import Gmars.Proofs.Abs
 import Gmars.Model.Expr
@@ -52,16 +53,39 @@ theorem copy_isolated (h : Heap) (ref i : Nat) (v : Instr) (hr : ref < h.length)
   · simp [List.getD, List.getElem?_set, List.getElem?_append_left hr]
   · simp [List.getD]
 
+/-- `assemble_order_independent` (1): whether the EQU table is cyclic does not depend on the
+    order in which Go happens to iterate over the symbol map -/
+theorem cycle_check_order_independent {values values' : SymTab} (hp : values'.Perm values)
+    (hnd : (values.map (·.1)).Nodup) :
+    graphContainsCycle (buildReferenceGraph values') = graphContainsCycle (buildReferenceGraph values) :=
+  MapOrder.cycle_perm hp hnd
+
+/-- `assemble_order_independent` (2): on an acyclic table the resolved value of EVERY symbol is
+    the same whatever the iteration order of the four map ranges of the assembler -/
+theorem expansion_order_independent {values values' : SymTab} (hp : values'.Perm values)
+    (hnd : (values.map (·.1)).Nodup)
+    (hc : graphContainsCycle (buildReferenceGraph values) = false) :
+    ∃ res res', expandExpressions values (buildReferenceGraph values) = some res ∧
+      expandExpressions values' (buildReferenceGraph values') = some res' ∧
+      ∀ k, res'.get? k = res.get? k :=
+  MapOrder.expand_perm hp hnd hc
+
+/-- `assemble_order_independent` (3): FOR counts evaluate to the same value in every order -/
+theorem for_count_order_independent {values values' : SymTab} (hp : values'.Perm values)
+    (hnd : (values.map (·.1)).Nodup) (expr : List Token) :
+    expandAndEvaluate expr values' = expandAndEvaluate expr values :=
+  MapOrder.expandAndEvaluate_perm hp hnd expr
+
+/-- `assemble_order_independent` (4): the parser's undefined-symbol check gives the same verdict
+    in every order (only the symbol named in the message differs) -/
+theorem symbol_check_order_independent {p p' : Parser.PState} (hr : p'.references.Perm p.references)
+    (hs : p'.symbols.Perm p.symbols) : Parser.symbolsValid p' = Parser.symbolsValid p :=
+  MapOrder.symbolsValid_perm hr hs
+
 /-
   Partial: data-race freedom under the Go memory model and the scheduler's interleavings are
   runtime behaviour no Lean model exhibits; the `conc` correspondence domain runs the jobs on
   1…32 goroutines under the race detector and compares every result with the sequential one.
-  `assemble_order_independent` (independence of Go's randomised map iteration order) is covered by
-  the `repeat` cases of that domain, not by a theorem: the model iterates in insertion order.
 -/
-def assemble_order_independent_statement : Prop :=
-  ∀ (values values' : SymTab), values'.Perm values →
-    (expandExpressions values (buildReferenceGraph values)).isSome =
-    (expandExpressions values' (buildReferenceGraph values')).isSome
 
 end Gmars.Props.C14
